@@ -1,5 +1,9 @@
 """Translator, part 2: the unit-suffix tables of scpi/src/parser/suffix.rs -> coq/gen/Gen_Suffix.v.
-Regular expressions over the `impl_unit![..]` / `impl_logarithmic_unit![..]` macro invocations."""
+A small bracket-matching reader of the `impl_unit!` / `impl_logarithmic_unit!` macro INVOCATIONS (any delimiter, any
+layout, comments, trailing commas, entries in any formatting).  The macro BODY is not interpreted: that a table entry is
+looked up case-insensitively and that everything else is rejected is checked behaviourally for every entry and for near
+misses by C18's correspondence stream; the order of the entries matters only if one spelling occurs twice in a table,
+which is rejected here."""
 import os, re
 
 
@@ -7,33 +11,95 @@ class TranslateError(Exception):
     pass
 
 
+def _strip_comments(src):
+    out = []; i = 0; n = len(src)
+    while i < n:
+        c = src[i]
+        if src.startswith("//", i):
+            j = src.find("\n", i); i = n if j < 0 else j
+        elif src.startswith("/*", i):
+            depth = 1; i += 2
+            while i < n and depth:
+                if src.startswith("/*", i): depth += 1; i += 2
+                elif src.startswith("*/", i): depth -= 1; i += 2
+                else: i += 1
+        elif c == '"':
+            j = i + 1
+            while j < n and src[j] != '"':
+                j += 2 if src[j] == "\\" else 1
+            out.append(src[i:j + 1]); i = j + 1
+        elif c == "'" and i + 2 < n and (src[i + 2] == "'" or (src[i + 1] == "\\" and i + 3 < n and src[i + 3] == "'")):
+            j = i + (3 if src[i + 2] == "'" else 4); out.append(src[i:j]); i = j
+        else:
+            out.append(c); i += 1
+    return "".join(out)
+
+
+def _invocations(src, name):
+    """bodies of `name![ ... ]` / `name!( ... )` / `name!{ ... }` (not the macro_rules! definition)"""
+    res = []
+    for m in re.finditer(r"(?<![A-Za-z0-9_])" + re.escape(name) + r"\s*!\s*([\[\(\{])", src):
+        before = src[max(0, m.start() - 40):m.start()]
+        if re.search(r"macro_rules\s*!\s*$", before): continue
+        open_c = m.group(1); close_c = {"[": "]", "(": ")", "{": "}"}[open_c]
+        depth = 1; i = m.end(); instr = False
+        while i < len(src) and depth:
+            c = src[i]
+            if instr:
+                if c == "\\": i += 1
+                elif c == '"': instr = False
+            elif c == '"': instr = True
+            elif c == open_c: depth += 1
+            elif c == close_c: depth -= 1
+            i += 1
+        if depth: raise TranslateError("unbalanced delimiter in an invocation of " + name)
+        res.append(src[m.end():i - 1])
+    return res
+
+
 def _entries(body):
-    body = re.sub(r"//[^\n]*", "", body)
     out = []
-    for part in [p.strip() for p in body.split(",") if p.strip()]:
-        m = re.fullmatch(r'((?:b"[^"]*"\s*\|?\s*)+)=>\s*([a-z_0-9]+)', part, re.S)
+    for part in [p.strip() for p in body.split(",")]:
+        if not part: continue
+        m = re.fullmatch(r'((?:b"(?:[^"\\]|\\.)*"\s*\|?\s*)+)=>\s*([A-Za-z_][A-Za-z_0-9]*)', part, re.S)
         if not m:
             raise TranslateError(f"suffix entry not understood: {part!r}")
-        sufs = re.findall(r'b"([^"]*)"', m.group(1))
-        out.append((sufs, m.group(2)))
+        sufs = re.findall(r'b"((?:[^"\\]|\\.)*)"', m.group(1))
+        if any("\\" in s for s in sufs): raise TranslateError("escape in a suffix literal")
+        out.append((sorted(sufs), m.group(2)))
+    if not out: raise TranslateError("empty suffix table")
+    out.sort(key=lambda e: (e[1], e[0]))      # canonical order: without a repeated spelling the order carries no meaning
+    seen = set()
+    for sufs, _ in out:
+        for s in sufs:
+            if s.upper() in seen: raise TranslateError(f"suffix {s!r} occurs twice in one table (the order of the entries would matter)")
+            seen.add(s.upper())
     return out
 
 
 def parse(repo):
-    src = open(os.path.join(repo, "scpi/src/parser/suffix.rs")).read()
-    units = []
-    for m in re.finditer(r"impl_unit!\[\s*([A-Za-z0-9_:<>]+)\s*,\s*([A-Za-z]+)\s*,\s*([a-z_]+)\s*;(.*?)\];", src, re.S):
-        units.append((m.group(2), m.group(3), _entries(m.group(4))))
-    logs = []
-    for m in re.finditer(r"impl_logarithmic_unit!\[\s*([A-Za-z0-9_:<>]+)\s*,\s*([A-Za-z]+)\s*;(.*?)\];", src, re.S):
-        logs.append((m.group(2), _entries(m.group(3))))
-    n_units = len(re.findall(r"impl_unit!\[", src))
-    n_logs = len(re.findall(r"impl_logarithmic_unit!\[", src))
-    if len(units) != n_units or len(logs) != n_logs or not units:
-        raise TranslateError(f"{n_units} impl_unit / {n_logs} impl_logarithmic_unit invocations but {len(units)} / {len(logs)} parsed")
-    # the lookup is `s.eq_ignore_ascii_case(suffix)` in a first-match chain ending in IllegalParameterValue
-    if "s if $(s.eq_ignore_ascii_case($suffix))||+" not in src or "_ => Err(ErrorCode::IllegalParameterValue.into())" not in src:
-        raise TranslateError("impl_unit! lookup shape changed")
+    src = _strip_comments(open(os.path.join(repo, "scpi/src/parser/suffix.rs")).read())
+    units, logs = [], []
+    for body in _invocations(src, "impl_unit"):
+        if ";" not in body: raise TranslateError("impl_unit! invocation without `;`")
+        head, ents = body.split(";", 1)
+        h = [x.strip() for x in head.split(",")]
+        if len(h) != 3 or not re.fullmatch(r"[A-Za-z]+", h[1]) or not re.fullmatch(r"[a-z_0-9]+", h[2]):
+            raise TranslateError(f"impl_unit! header not understood: {head!r}")
+        units.append((h[1], h[2], _entries(ents)))
+    for body in _invocations(src, "impl_logarithmic_unit"):
+        if ";" not in body: raise TranslateError("impl_logarithmic_unit! invocation without `;`")
+        head, ents = body.split(";", 1)
+        h = [x.strip() for x in head.split(",")]
+        if len(h) != 2 or not re.fullmatch(r"[A-Za-z]+", h[1]):
+            raise TranslateError(f"impl_logarithmic_unit! header not understood: {head!r}")
+        logs.append((h[1], _entries(ents)))
+    if not units or not logs:
+        raise TranslateError(f"{len(units)} impl_unit / {len(logs)} impl_logarithmic_unit invocations found")
+    # canonical order (by quantity name): the order of the invocations in the file carries no meaning
+    units.sort(key=lambda u: u[0]); logs.sort(key=lambda u: u[0])
+    if len({u[0] for u in units}) != len(units) or len({u[0] for u in logs}) != len(logs):
+        raise TranslateError("a quantity has two tables")
     return units, logs
 
 
